@@ -821,6 +821,20 @@ Definition c08_wire (toks : list (list N)) : list (list N) :=
   | _ => REJECT_TOK
   end.
 
+(* serialize_request. in: [minor; multiplexed] method target authority flat-headers
+   out: the bytes; [0; n] a body of n bytes | [1] a chunked body   -  or [997] when the request is refused *)
+From TT Require Import Model.FwdRequest.
+Definition c17_request (toks : list (list N)) : list (list N) :=
+  match toks with
+  | [minor; mx] :: method :: target :: authority :: flat :: _ =>
+    match ser_request method target minor (mx =? 1) authority (dec_headers (length flat) flat) with
+    | Some (bytes, Det n) => [bytes; [0; n]]
+    | Some (bytes, Chunked) => [bytes; [1]]
+    | None => [[997]]
+    end
+  | _ => REJECT_TOK
+  end.
+
 From TT Require Import Model.Forwarded.
 
 (* in: [mode; n] body_stream seg_sizes accepts    mode 0 close-delimited | 1 Content-Length n | 2 chunked
